@@ -68,6 +68,7 @@ def behOf (fn : String) : Beh Int CS Inp OV Int where
     | "echo1" => echoStep 1 now i s
     | "echo2" => echoStep 2 now i s
     | "echo3" => echoStep 3 now i s
+    | "echov" => echoStep (1 + ((((i.a.getD 0) % 3 + 3) % 3).toNat)) now i s
     | "even" => match i.aTick, i.a with
       | true, some v => if v % 2 == 0 then { st := s, out := some (.i v) } else { st := s }
       | _, _ => { st := s }
@@ -228,7 +229,6 @@ def cycleStep (d : DS) (ops : List Op) : DS × String :=
   let z := ops.foldl (fun acc o => match o with | .z v => some v | _ => acc) d.z
   let aTicked := ops.any fun o => match o with
     | .set .. | .del .. | .tick | .nset .. | .ndel .. => true | _ => false
-  let bTicked := ops.any fun o => match o with | .bset .. | .bdel .. => true | _ => false
   -- keys of `a` before / after (nest: keys of the outer dictionary)
   let aKeys0 := if nested then d.na.map (·.1) else d.a.map (·.1)
   let nTouched := dedup (nSets.map (·.1) ++ nDels.map (·.1))
@@ -242,13 +242,16 @@ def cycleStep (d : DS) (ops : List Op) : DS × String :=
       if (findKV l k).isSome then l.map (fun p => if p.1 == k then (k, cur2) else p) else l ++ [(k, cur2)]) na0
   let aKeys1 := if nested then na1.map (·.1) else a1.map (·.1)
   let aEff := !aSets.isEmpty || !aEffDels.isEmpty || !nTouched.isEmpty
-  let aMod := aTicked && (aEff || !d.aValid)
-  let aValid := d.aValid || aTicked
+  -- an entirely empty delta validates a dictionary that is not valid yet; a delta that only removes absent
+  -- keys changes nothing (and does not validate)
+  let aEmpty := aTicked && aSets.isEmpty && aDels.isEmpty && nTouched.isEmpty
+  let aMod := aEff || (!d.aValid && aEmpty)
+  let aValid := d.aValid || aMod
   let bEffDels := bDels.filter fun k => (kvGet d.b k).isSome
   let b1 := bSets.foldl (fun l kv => kvSet l kv.1 kv.2) (bEffDels.foldl kvDel d.b)
   let bEff := !bSets.isEmpty || !bEffDels.isEmpty
-  let bMod := two && bTicked && (bEff || !d.bValid)
-  let bValid := d.bValid || (two && bTicked)
+  let bMod := two && bEff
+  let bValid := d.bValid || bMod
   -- ---- the key set and its slots ------------------------------------------------------------------
   let keys0 := d.ks.live.map (·.2)
   let keys1 := if two then dedup (aKeys1 ++ b1.map (·.1)) else aKeys1
@@ -308,7 +311,7 @@ def cycleStep (d : DS) (ops : List Op) : DS × String :=
             outValid := outValid, errValid := errValid, cycle := d.cycle + 1 }, line)
 
 def fnKnown (f : String) : Bool :=
-  ["inc", "acc", "addkey", "echo1", "echo2", "echo3", "even", "neg", "negecho", "addb", "pair", "nest"].contains f
+  ["inc", "acc", "addkey", "echo1", "echo2", "echo3", "echov", "even", "neg", "negecho", "addb", "pair", "nest"].contains f
 
 def reset (d : DS) : DS := { cfg := d.cfg, bad := d.bad }
 
